@@ -59,6 +59,7 @@ type Conn struct {
 	closedPeer  bool
 	FramesIn    int
 	LostWrites  int // bytes written after the peer closed
+	readers     int // goroutines currently inside Read
 	Waiting     int // free-running mode: readers currently blocked waiting for data
 	Consumed    int // bytes handed to the client
 	BadStream   string
@@ -104,8 +105,16 @@ var errClosed = errors.New("use of closed network connection")
 
 func (c *Conn) Read(b []byte) (int, error) {
 	n := c.net
+	if n.S != nil && c.readers > 0 {
+		// a read from a socket is a point where another goroutine may run; it matters only when several
+		// goroutines read the same connection (a leaked reading routine): the bytes of one frame are then
+		// split between them
+		n.S.Yield("conn-read")
+	}
 	n.lock()
 	defer n.unlock()
+	c.readers++
+	defer func() { c.readers-- }()
 	for {
 		if len(b) == 0 {
 			return 0, nil
@@ -127,7 +136,7 @@ func (c *Conn) Read(b []byte) (int, error) {
 		}
 		if n.S != nil {
 			c.Waiting++
-			n.S.Wait(c)
+			n.S.Wait(&readWait{c, len(b)})
 			c.Waiting--
 		} else {
 			c.Waiting++
@@ -250,13 +259,31 @@ func (c *Conn) live() bool { return !c.closedLocal && !c.closedPeer && c.ctx.Err
 
 // ---- sched.Env -----------------------------------------------------------------
 
+// readWait: a reader parked in Conn.Read until need bytes are there (or the connection ends).
+type readWait struct {
+	c    *Conn
+	need int
+}
+
+// ConnOf returns the connection a parked reader waits on (nil if obj is not a reader's wait object).
+func ConnOf(obj interface{}) *Conn {
+	if rw, ok := obj.(*readWait); ok {
+		return rw.c
+	}
+	return nil
+}
+
 func (n *Net) Alternatives(obj interface{}) int {
-	c := obj.(*Conn)
+	rw := obj.(*readWait)
+	c := rw.c
 	if c.ctx.Err() != nil || c.closedLocal || c.closedPeer {
 		return 1 // wake up to report the condition
 	}
-	if len(c.in) >= 4 {
-		return 1 // data arrived (a frame was pushed): just resume
+	if len(c.in) >= rw.need {
+		return 1 // what this reader asked for has arrived: just resume
+	}
+	if len(c.in) > 0 {
+		return 0 // some bytes are there but not enough for this reader (and the server has nothing to add until they are consumed)
 	}
 	// only the newest connection to a server is served
 	for i := len(n.Conns) - 1; i >= 0; i-- {
@@ -271,8 +298,8 @@ func (n *Net) Alternatives(obj interface{}) int {
 }
 
 func (n *Net) Apply(obj interface{}, alt int) {
-	c := obj.(*Conn)
-	if c.ctx.Err() != nil || c.closedLocal || c.closedPeer || len(c.in) >= 4 {
+	c := obj.(*readWait).c
+	if c.ctx.Err() != nil || c.closedLocal || c.closedPeer || len(c.in) > 0 {
 		return
 	}
 	m := c.Srv.Menu()
